@@ -1,4 +1,8 @@
-/-! C10 (a): one HTTP server connection as a transition system at the level of whole messages.
+/-! PROPOSED PATCH ONLY (docs/proposed/c10-close-after-flush.patch, NOT applied to the tree): copy of
+`Model/Pipeline.lean` in which the close decision waits for the write list (`draining`).  Not run by any driver, not
+listed in `Audit/`.
+
+C10 (a): one HTTP server connection as a transition system at the level of whole messages.
 
 Composition of three components that are represented here by what their own properties establish
 (explicit structure fields / parameters, not re-proved):
@@ -12,14 +16,16 @@ Composition of three components that are represented here by what their own prop
   `(reqs[k]).pieces`, whose concatenation is the response of request `k`, and nothing else writes to
   the conn — steps `start` / `write` / `finish`.
 
-`finish` is the tail of `flushResponse`: `if req.Close { conn.Close() }`.  `extClose` is any close that
+`finish` is the tail of `flushResponse`: `if req.Close { closeAfterFlush(conn) }` (the repaired code:
+the connection is closed once its write list has been flushed).  `extClose` is any close that
 does not come from the close decision (peer reset, deadline, parse error, engine stop, failed write).
 Between `Conn.Write` and the peer sits the conn's write list (M1, C01/C04): `wire` is what the kernel
-took, `pending` what is still queued, `flush` the poller moving it on; a close releases the queue.
+took, `pending` what is still queued, `flush` the poller moving it on; `Close` and every other
+immediate close (`extClose`) release the queue, the close decision waits for it (`draining`).
 Nondeterminism = the order of the actions and the kernel's answers (an arbitrary `List Act`, disabled
 actions are skipped).
 Core Lean only (linked into `pipedrv`). -/
-namespace Pipeline
+namespace PipelineProposed
 
 abbrev Bytes := List UInt8
 
@@ -110,7 +116,8 @@ structure St (α : Type) where
   wire     : List α                      -- bytes the kernel has accepted = what the peer receives, in order
   pending  : List α                      -- Conn.writeList: taken by Conn.Write, not yet by the kernel (M1)
   closed   : Bool                        -- Conn.closed
-  byServer : Bool                        -- ghost: closed by flushResponse's `conn.Close()`
+  draining : Bool                        -- Conn.closeOnDrain: CloseAfterFlush is waiting for the write list
+  byServer : Bool                        -- ghost: closed by the close decision (flushResponse)
   ext      : Bool                        -- ghost: an `extClose` happened
   dropped  : Bool                        -- ghost: a close released a non-empty write list
   fin      : Nat                         -- ghost: number of jobs finished
@@ -124,8 +131,11 @@ inductive Act where
   deriving Repr, DecidableEq
 
 def init {α} : St α :=
-  { next := 0, queue := [], cur := none, wire := [], pending := [], closed := false, byServer := false,
-    ext := false, dropped := false, fin := 0, handled := [] }
+  { next := 0, queue := [], cur := none, wire := [], pending := [], closed := false, draining := false,
+    byServer := false, ext := false, dropped := false, fin := 0, handled := [] }
+
+/-- no more bytes are taken from the application: closed, or waiting to close -/
+def St.shut {α} (s : St α) : Bool := s.closed || s.draining
 
 def step {α} (cfg : Cfg α) (s : St α) : Act → Option (St α)
   | .parse =>
@@ -143,36 +153,41 @@ def step {α} (cfg : Cfg α) (s : St α) : Act → Option (St α)
       | none => none
     | _, _ => none
   | .write k =>
-    -- one `conn.Write` of the running job.  On a closed conn it fails and nothing is taken.  Otherwise
-    -- `Conn.write`: with an empty write list the kernel is tried first and the unsent rest is queued;
-    -- behind a backlog the whole buffer is queued.
+    -- one `conn.Write` of the running job.  On a closed (or closing: closeOnDrain) conn it fails and
+    -- nothing is taken.  Otherwise `Conn.write`: with an empty write list the kernel is tried first
+    -- and the unsent rest is queued; behind a backlog the whole buffer is queued.
     match s.cur with
     | some (p :: ps) =>
-      if s.closed then some { s with cur := some ps }
+      if s.closed || s.draining then some { s with cur := some ps }
       else if s.pending.isEmpty then
         let n := match k with | none => p.length | some k => k
         some { s with cur := some ps, wire := s.wire ++ p.take n, pending := p.drop n }
       else some { s with cur := some ps, pending := s.pending ++ p }
     | _ => none
   | .flush k =>
-    -- the poller flushes part of the backlog
+    -- the poller flushes part of the backlog; `flush()` that empties the list of a connection marked
+    -- by CloseAfterFlush closes it
     if !s.closed && !s.pending.isEmpty && k > 0 then
-      some { s with wire := s.wire ++ s.pending.take k, pending := s.pending.drop k }
+      if (s.pending.drop k).isEmpty && s.draining then
+        some { s with wire := s.wire ++ s.pending, pending := [], closed := true, draining := false,
+                      byServer := true }
+      else some { s with wire := s.wire ++ s.pending.take k, pending := s.pending.drop k }
     else none
   | .finish =>
-    -- tail of flushResponse: `if req.Close { conn.Close() }`, then the drainer's `next`.
-    -- `Close` = closeWithError: the write list is released, whatever it still holds is never sent.
+    -- tail of flushResponse: `if req.Close { closeAfterFlush(conn) }`, then the drainer's `next`.
+    -- `Conn.CloseAfterFlush`: nothing queued → close now; else mark the connection, `flush` closes it.
     match s.cur, s.queue with
     | some [], k :: q =>
       let cl := match cfg.reqs[k]? with | some r => r.close | none => false
-      let closing := cl && !s.closed
-      some { s with cur := none, queue := q, fin := s.fin + 1,
-                    closed := s.closed || cl, byServer := s.byServer || closing,
-                    pending := if closing then [] else s.pending,
-                    dropped := s.dropped || (closing && !s.pending.isEmpty) }
+      if cl && !s.closed && !s.draining then
+        if s.pending.isEmpty then
+          some { s with cur := none, queue := q, fin := s.fin + 1, closed := true, byServer := true }
+        else some { s with cur := none, queue := q, fin := s.fin + 1, draining := true }
+      else some { s with cur := none, queue := q, fin := s.fin + 1 }
     | _, _ => none
   | .extClose =>
-    some { s with closed := true, ext := true, pending := [],
+    -- Close / deadline / peer reset / write error: at once, the write list is released
+    some { s with closed := true, ext := true, draining := false, pending := [],
                   dropped := s.dropped || !s.pending.isEmpty }
 
 def run {α} (cfg : Cfg α) : St α → List Act → St α
@@ -219,4 +234,4 @@ def noExt (acts : List Act) : Bool := acts.all (fun a => a != .extClose)
 def doneB {α} (cfg : Cfg α) (s : St α) : Bool :=
   s.next == cfg.reqs.length && s.queue.isEmpty && s.pending.isEmpty
 
-end Pipeline
+end PipelineProposed
